@@ -8,9 +8,13 @@
    pre-order list (name, optional, depth) that Table.dependencies(recursive) returns for it - the
    version resolver is not modelled, it enters only through these lists, so every theorem holds for
    every graph and every resolver.
+   Level A (the text of the table to classified lines, the output lines back to text) is Model/ExpandText.v.
    Fixed at their defaults: expandVersions, addExactBlock, recurse.  Outside the model: --external
-   lines, lines naming the product eups, a pre-existing exact block, setup commands that share a line
-   with other text, LOCAL: set-ups, the indentation of the output (white space only).
+   lines, a pre-existing exact block, setup commands that share a line with other text (Model/ExpandText.v
+   returns an explicit verdict for them), LOCAL: set-ups.
+   Lines naming the product eups (LEups): returned unchanged by subSetup, they open a setup block without
+   joining it and are written after everything else.  The indentation level of the output (an integer that
+   may go below zero) is part of the model: it decides whether a blank last line of a setup block is written.
 
    Three repairs of the pinned tree are modelled, each behind a boolean so that the pinned behaviour stays
    available for the refuted-pinned examples:
@@ -38,7 +42,8 @@ Inductive tline :=
 | LBlank                          (* white space only *)
 | LComment (t : str)              (* comment only *)
 | LSetup (s : sline)
-| LOther (t : str).               (* any other line, trailing comment and outer blanks removed *)
+| LOther (t : str)                (* any other line, trailing comment and outer blanks removed *)
+| LEups (t : str).                (* a setup command whose first argument is eups, as written (stripped) *)
 
 (* python truth of an optional string *)
 Definition truthy (o : option str) : option str :=
@@ -104,7 +109,7 @@ Definition rl_just (r : rline) : bool := mem_str (lit "-j") (rl_flags r).
 
 (* ---------- blocks of contiguous setup / other lines; blank and comment lines stay in the current block *)
 
-Inductive bline := BBlank | BComment (t : str) | BSetup (r : rline) | BOther (t : str).
+Inductive bline := BBlank | BComment (t : str) | BSetup (r : rline) | BOther (t : str) | BEups (t : str).
 
 Definition rewrite_line (w : world) (e : amap str) (plist : amap str) (l : tline) : bline :=
   match l with
@@ -112,15 +117,19 @@ Definition rewrite_line (w : world) (e : amap str) (plist : amap str) (l : tline
   | LComment t => BComment t
   | LSetup s => BSetup (rewrite w e plist s)
   | LOther t => BOther t
+  | LEups t => BEups t
   end.
 
+(* A line naming eups opens a setup block like any setup line (it matched the pattern) but is put aside
+   (finalBlock) instead of being appended to the block.  Here it stays in the list, so that the blocks still
+   partition the lines; [body_lines] removes it where the block is written. *)
 Fixpoint blocks (cur_setup : bool) (cur : list bline) (ls : list bline) : list (bool * list bline) :=
   match ls with
   | [] => [(cur_setup, rev cur)]
   | l :: ls' =>
       match l with
-      | BSetup _ => if cur_setup then blocks true (l :: cur) ls'
-                    else (false, rev cur) :: blocks true [l] ls'
+      | BSetup _ | BEups _ => if cur_setup then blocks true (l :: cur) ls'
+                               else (false, rev cur) :: blocks true [l] ls'
       | BOther _ => if cur_setup then (true, rev cur) :: blocks false [l] ls'
                     else blocks false (l :: cur) ls'
       | _ => blocks cur_setup (l :: cur) ls'
@@ -276,7 +285,8 @@ Inductive oline :=
 | OIfNotExact                     (* if (type != exact) { *)
 | OElse                           (* } else { *)
 | OClose                          (* } *)
-| OPin (optional : bool) (name version : str).
+| OPin (optional : bool) (name version : str)
+| OEups (t : str).                (* a line naming eups, written after everything else *)
 
 Definition out_bline (b : bline) : oline :=
   match b with
@@ -284,36 +294,97 @@ Definition out_bline (b : bline) : oline :=
   | BComment t => OComment t
   | BSetup r => OSetup r
   | BOther t => OOther t
+  | BEups t => OEups t
   end.
 
-(* the cosmetic rule: a blank last line of a setup block is not written *)
+Definition is_beups (b : bline) : bool := match b with BEups _ => true | _ => false end.
+Definition body_lines (b : list bline) : list bline := filter (fun x => negb (is_beups x)) b.
+Fixpoint eups_lines (b : list bline) : list str :=
+  match b with
+  | [] => []
+  | BEups t :: b' => t :: eups_lines b'
+  | _ :: b' => eups_lines b'
+  end.
+
+(* the cosmetic rule: a blank last line of a setup block is not written - when the indentation level is
+   positive *)
 Fixpoint drop_last_blank (b : list bline) : list bline :=
   match b with
   | [] => []
   | [BBlank] => []
   | x :: b' => x :: drop_last_blank b'
   end.
+Definition setup_body (lvl : Z) (b : list bline) : list bline :=
+  if (0 <? lvl + 1)%Z then drop_last_blank (body_lines b) else body_lines b.
 
 Definition pin_lines (a : acc) : list oline :=
   map (fun k => OPin (mem_key k (a_opt a) || mem_str (fst k) (a_nf a)) (fst k) (snd k)) (a_des a).
 
-Fixpoint emit (pins : list oline) (bs : list (bool * list bline)) : list oline :=
+(* The indentation level.  Only the FIRST line of a block of other lines is looked at: if it ends with a left
+   brace it is written at the current level and the level goes up; if it is a lone right brace the level goes
+   down first.  Comment lines are kept as read, so a comment that ends with a left brace counts.  Returns the
+   level of the first line and the level of the remaining lines (which is the level afterwards). *)
+Definition c_lbrace : ascii := ascii_of_nat 123.
+Definition c_rbrace : ascii := ascii_of_nat 125.
+Definition ends_lbrace (t : str) : bool :=
+  match rev t with c :: _ => ascii_eqb c c_lbrace | [] => false end.
+Definition is_rbrace (t : str) : bool := str_eqb t [c_rbrace].
+Definition block_levels (lvl : Z) (b : list bline) : Z * Z :=
+  match b with
+  | BOther t :: _ => if ends_lbrace t then (lvl, lvl + 1)%Z
+                     else if is_rbrace t then (lvl - 1, lvl - 1)%Z else (lvl, lvl)
+  | BComment t :: _ => if ends_lbrace t then (lvl, lvl + 1)%Z else (lvl, lvl)
+  | _ => (lvl, lvl)
+  end.
+
+Definition at_level (lvl : Z) (l : list oline) : list (Z * oline) := map (fun o => (lvl, o)) l.
+
+(* the lines with the level each is written at *)
+Fixpoint emit_z (lvl : Z) (pins : list oline) (bs : list (bool * list bline)) : list (Z * oline) :=
   match bs with
   | [] => []
-  | (false, b) :: rest => map out_bline b ++ emit pins rest
+  | (false, b) :: rest =>
+      let '(l1, l2) := block_levels lvl b in
+      match map out_bline b with
+      | [] => []
+      | x :: r => (l1, x) :: at_level l2 r
+      end ++ emit_z l2 pins rest
   | (true, b) :: rest =>
-      let body := map out_bline (drop_last_blank b) in
+      let body := at_level (lvl + 1) (map out_bline (setup_body lvl b)) in
       if existsb fst rest
-      then OIfNotExact :: body ++ OClose :: emit pins rest
-      else OIfExact :: pins ++ OElse :: body ++ OClose :: emit pins rest
+      then (lvl, OIfNotExact) :: body ++ (lvl, OClose) :: emit_z lvl pins rest
+      else (lvl, OIfExact) :: at_level (lvl + 1) pins ++ (lvl, OElse) :: body ++ (lvl, OClose) :: emit_z lvl pins rest
   end.
+
+(* the lines alone (emit_levels: it is map snd of emit_z) *)
+Fixpoint emit (lvl : Z) (pins : list oline) (bs : list (bool * list bline)) : list oline :=
+  match bs with
+  | [] => []
+  | (false, b) :: rest => map out_bline b ++ emit (snd (block_levels lvl b)) pins rest
+  | (true, b) :: rest =>
+      let body := map out_bline (setup_body lvl b) in
+      if existsb fst rest
+      then OIfNotExact :: body ++ OClose :: emit lvl pins rest
+      else OIfExact :: pins ++ OElse :: body ++ OClose :: emit lvl pins rest
+  end.
+
+Definition final_lines (bl : list bline) : list oline := map OEups (eups_lines bl).
 
 Definition expand_gen (jfix sfix cfix : bool) (w : world) (e : amap str) (top : str) (plist : amap str)
                       (force : bool) (rd : rawdeps) (ls : list tline) : res (list oline) :=
   let bl := map (rewrite_line w e plist) ls in
   match collect jfix sfix cfix w e top plist force rd (setup_rlines bl) {| a_des := []; a_opt := []; a_nf := [] |} with
   | Err x => Err x
-  | Ok a => Ok (emit (pin_lines a) (blocks false [] bl))
+  | Ok a => Ok (emit 0 (pin_lines a) (blocks false [] bl) ++ final_lines bl)
+  end.
+
+(* the same with the indentation level of every line (the lines after everything else are at level 0) *)
+Definition expand_layout (jfix sfix cfix : bool) (w : world) (e : amap str) (top : str) (plist : amap str)
+                         (force : bool) (rd : rawdeps) (ls : list tline) : res (list (Z * oline)) :=
+  let bl := map (rewrite_line w e plist) ls in
+  match collect jfix sfix cfix w e top plist force rd (setup_rlines bl) {| a_des := []; a_opt := []; a_nf := [] |} with
+  | Err x => Err x
+  | Ok a => Ok (emit_z 0 (pin_lines a) (blocks false [] bl) ++ at_level 0 (final_lines bl))
   end.
 
 (* the code as repaired, and the pinned tree *)
@@ -333,6 +404,9 @@ Definition render_rline (r : rline) : str :=
       lit ")"
   end.
 
+(* python: the name left-justified in a field of 15 characters *)
+Definition pad15 (n : str) : str := n ++ repeat c_space (15 - length n).
+
 Definition render (o : oline) : str :=
   match o with
   | OBlank => []
@@ -343,15 +417,13 @@ Definition render (o : oline) : str :=
   | OIfNotExact => lit "if (type != exact) {"
   | OElse => lit "} else {"
   | OClose => lit "}"
-  | OPin o n v => cmd_name o ++ lit "(" ++ n ++ lit " -j " ++ v ++ lit ")"
+  | OPin o n v => cmd_name o ++ lit "(" ++ pad15 n ++ lit " -j " ++ v ++ lit ")"
+  | OEups t => t
   end.
 
-Definition expand_text (w : world) (e : amap str) (top : str) (plist : amap str) (force : bool)
-                       (rd : rawdeps) (ls : list tline) : res (list str) :=
-  match expand w e top plist force rd ls with
-  | Ok out => Ok (map render out)
-  | Err x => Err x
-  end.
+(* the line as written: three blanks per level, none below level one *)
+Definition indent (lvl : Z) : str := repeat c_space (3 * Z.to_nat lvl).
+Definition render_at (x : Z * oline) : str := indent (fst x) ++ render (snd x).
 
 (* ---------- what a reader of the expanded table sees in exact / in non-exact mode *)
 
@@ -392,6 +464,7 @@ Fixpoint exact_actions (interp : str -> list action) (ls : list oline) : list ac
   | [] => []
   | OPin o n _ :: ls' => ASetup o n true :: exact_actions interp ls'
   | OOther t :: ls' => interp t ++ exact_actions interp ls'
+  | OEups t :: ls' => interp t ++ exact_actions interp ls'       (* a version check of eups itself: no setup *)
   | _ :: ls' => exact_actions interp ls'
   end.
 
